@@ -27,6 +27,7 @@ class Opts:
         self.p_explicit = 0.5
         self.p_share = 0.12         # identity sharing of an already built sub-model
         self.p_copy = 0.05          # equal copy of an already generated sub-recipe
+        self.p_alias = 0.06         # the same definition once more, written with another class (Any(..) vs AtLeast(1,..) vs the inside of Xor(..))
         self.p_str = 0.1            # bare string leaf (only for boolean leaves)
         self.odd_ids = 0.15
         self.kinds = KINDS
@@ -101,6 +102,10 @@ def gen_model(rng, o=None, pool=None, idgen=None, made=None, depth=None, top=Tru
             _unlabel(c)
             c["_copy_of"] = id(orig)
             return c
+        if made and r < o.p_share + o.p_copy + o.p_alias:
+            a = alias_of(rng.choice(made))
+            if a is not None:
+                return a
         if d <= 0 or r > 1 - o.p_leaf:
             return leaf()
         m = gen_model(rng, o, pool, idgen, made, d, top=False)
@@ -138,6 +143,31 @@ def gen_model(rng, o=None, pool=None, idgen=None, made=None, depth=None, top=Tru
     if node["k"] != "Not":
         made.append(node)
     return node
+
+
+def alias_of(m):
+    """the definition of node m written with another class (identical id, sign, value, children)"""
+    import copy
+    if any(a["k"] == "ref" for a in m["args"]):
+        return None
+    args = copy.deepcopy(strip(m["args"]))
+    for a in args:
+        _unlabel(a)
+    k = m["k"]
+    if k == "Any":
+        out = {"k": "AtLeast", "id": m.get("id"), "args": args, "value": 1}
+    elif k == "All" and len(args) >= 1:
+        out = {"k": "AtLeast", "id": m.get("id"), "args": args, "value": len(args)}
+    elif k == "AtLeast" and m.get("value") == 1 and m.get("sign") in (None,) :
+        out = {"k": "Any", "id": m.get("id"), "args": args}
+    elif k in ("Xor", "ExactlyOne") and not m.get("id"):
+        out = {"k": "Any", "id": None, "args": args}          # collides with the AtLeast(1, ..) inside the Xor
+    else:
+        return None
+    if m.get("fix") is not None:
+        out["fix"] = m["fix"]
+    out["_copy_of"] = id(m)
+    return out
 
 
 def _rid(r):
